@@ -150,9 +150,9 @@ Proof.
     apply partial_full. unfold zlen in *. nia.
 Qed.
 
-Theorem write_nd_appends csb old shape isz data :
+Theorem write_nd_appends csb old shape isz dt0 data :
   match old with Some d => 0 < nd_chunk d | None => True end ->
-  nd_rows (write_nd csb old shape isz data)
+  nd_rows (write_nd csb old shape isz dt0 data)
   = match old with Some d => nd_rows d | None => [] end ++ data.
 Proof.
   intros Hc. pose proof (zlen_nonneg data) as Hd. unfold write_nd. destruct old as [d|].
@@ -431,16 +431,16 @@ Proof.
   intros H k' d. rewrite alookup_adel. destruct (k' =? k); [discriminate|apply H].
 Qed.
 
-Lemma write_nd_chunk csb old shape isz data :
+Lemma write_nd_chunk csb old shape isz dt0 data :
   match old with Some d => 0 < nd_chunk d | None => True end ->
-  0 < nd_chunk (write_nd csb old shape isz data).
+  0 < nd_chunk (write_nd csb old shape isz dt0 data).
 Proof.
   unfold write_nd. destruct old as [d|]; cbn [nd_chunk]; intros H; [exact H|].
   unfold best_chunk. lia.
 Qed.
 
-Lemma ChunksPos_write csb k l shape isz data :
-  ChunksPos l -> ChunksPos (aset k (write_nd csb (alookup k l) shape isz data) l).
+Lemma ChunksPos_write csb k l shape isz dt0 data :
+  ChunksPos l -> ChunksPos (aset k (write_nd csb (alookup k l) shape isz dt0 data) l).
 Proof.
   intros H k' d. rewrite alookup_aset. destruct (k' =? k); [|apply H].
   intros [= <-]. apply write_nd_chunk.
@@ -460,28 +460,45 @@ Definition grp_rows (g : option (list (Z * nd))) (tr : Z) : list row :=
 Definition optPos (g : option (list (Z * nd))) : Prop :=
   match g with Some g => ChunksPos g | None => True end.
 
-Lemma trace_loop_spec csb shape isz tr : forall data grp,
-  optPos grp ->
-  optPos (fst (trace_loop csb shape isz data grp))
-  /\ grp_rows (fst (trace_loop csb shape isz data grp)) tr
-     = spec_trace_call tr (grp_rows grp tr) (effective data).
+Lemma fits_cast_nd t v : fits_nd t v = true -> cast_nd t v = v.
+Proof. destruct t; simpl; intros H; [reflexivity|reflexivity|lia]. Qed.
+
+Lemma rows_fit_cast t rows : rows_fit t rows = true -> map (map (cast_nd t)) rows = rows.
 Proof.
-  induction data as [|[t rows] r IH]; intros grp HP; cbn [trace_loop effective spec_trace_call].
+  unfold rows_fit. induction rows as [|r rs IH]; simpl; [reflexivity|].
+  intros H. apply andb_prop in H as [H1 H2]. rewrite IH by exact H2. f_equal.
+  induction r as [|v r IHr]; simpl in *; [reflexivity|].
+  apply andb_prop in H1 as [Hv Hr]. now rewrite fits_cast_nd, IHr.
+Qed.
+
+Lemma trace_loop_spec csb shape ddt tr : forall data grp,
+  optPos grp ->
+  optPos (fst (trace_loop csb shape ddt data grp))
+  /\ (trace_ok csb shape ddt data grp = true ->
+      grp_rows (fst (trace_loop csb shape ddt data grp)) tr
+      = spec_trace_call tr (grp_rows grp tr) (effective data)).
+Proof.
+  induction data as [|[t rows] r IH]; intros grp HP;
+    cbn [trace_loop trace_ok effective spec_trace_call].
   - auto.
   - set (g := match grp with Some g => g | None => [] end).
     assert (HPg : ChunksPos g).
     { subst g. destruct grp; [exact HP|]. intros k d; discriminate. }
     assert (Hg : grp_rows grp tr = grp_rows (Some g) tr) by (subst g; now destruct grp).
     destruct (nonempty rows) eqn:En; cbn [spec_trace_call].
-    + destruct (IH (Some (aset t (write_nd csb (alookup t g) shape isz rows) g))) as [I1 I2].
+    + set (dt := trace_dt (alookup t g) ddt).
+      destruct (IH (Some (aset t (write_nd csb (alookup t g) shape (ndt_size ddt) dt
+                                          (map (map (cast_nd dt)) rows)) g))) as [I1 I2].
       { now apply ChunksPos_write. }
-      split; [exact I1|]. rewrite I2. f_equal.
+      split; [exact I1|]. intros Hok. apply andb_prop in Hok as [Hfit Hrest].
+      rewrite (I2 Hrest). f_equal.
       cbn [grp_rows]. rewrite alookup_aset, (Z.eqb_sym tr t). destruct (t =? tr) eqn:E.
       * assert (t = tr) by lia; subst t.
         rewrite write_nd_appends by (apply ChunksPos_lookup, HPg).
+        rewrite (rows_fit_cast dt rows Hfit).
         rewrite Hg. cbn [grp_rows]. now destruct (alookup tr g).
       * now rewrite Hg.
-    + cbn [fst]. split; [exact HPg|]. now rewrite Hg.
+    + cbn [fst]. split; [exact HPg|]. intros _. now rewrite Hg.
 Qed.
 
 Lemma fold_adel_rows names : forall g tr,
@@ -529,33 +546,31 @@ Proof.
   - unfold store_image. destruct (nonempty _); reflexivity.
 Qed.
 
-Lemma store_trace_spec s shape isz data tr :
+Lemma store_trace_spec s shape ddt data tr :
   NdInv (st_f s) ->
-  let f' := fst (store_trace (st_w s) (st_f s) shape isz data) in
+  let f' := fst (store_trace (st_w s) (st_f s) shape ddt data) in
   optPos (f_trace f') /\ f_nd f' = f_nd (st_f s)
-  /\ grp_rows (f_trace f') tr
-     = spec_trace_call tr
-         (if (w_mode (st_w s) =? 1) && existsb (Z.eqb tr) (map fst data) then []
-          else grp_rows (f_trace (st_f s)) tr) (effective data).
+  /\ (trace_ok (w_csb (st_w s)) shape ddt data (trace_grp0 s data) = true ->
+      grp_rows (f_trace f') tr
+      = spec_trace_call tr
+          (if (w_mode (st_w s) =? 1) && existsb (Z.eqb tr) (map fst data) then []
+           else grp_rows (f_trace (st_f s)) tr) (effective data)).
 Proof.
-  intros [HN HT]. cbv zeta. unfold store_trace.
-  set (grp0 := match f_trace (st_f s) with
-               | Some g => if w_mode (st_w s) =? 1
-                           then Some (fold_left (fun g' t => adel t g') (map fst data) g)
-                           else Some g
-               | None => None end).
+  intros [HN HT]. cbv zeta. unfold store_trace. fold (trace_grp0 s data).
+  set (grp0 := trace_grp0 s data).
   assert (H0 : optPos grp0 /\ grp_rows grp0 tr
                = if (w_mode (st_w s) =? 1) && existsb (Z.eqb tr) (map fst data) then []
                  else grp_rows (f_trace (st_f s)) tr).
-  { subst grp0. destruct (f_trace (st_f s)) as [g|].
+  { subst grp0. unfold trace_grp0. destruct (f_trace (st_f s)) as [g|].
     - destruct (w_mode (st_w s) =? 1); cbn [andb].
       + split; [now apply fold_adel_pos|apply fold_adel_rows].
       + split; [exact HT|reflexivity].
     - split; [exact I|]. now destruct (_ && _). }
   destruct H0 as [HP0 HR0].
-  destruct (trace_loop_spec (w_csb (st_w s)) shape isz tr data grp0 HP0) as [L1 L2].
-  destruct (trace_loop (w_csb (st_w s)) shape isz data grp0) as [grp err]; cbn [fst] in *.
-  cbn [f_trace f_nd with_trace]. rewrite L2, HR0. auto.
+  destruct (trace_loop_spec (w_csb (st_w s)) shape ddt tr data grp0 HP0) as [L1 L2].
+  destruct (trace_loop (w_csb (st_w s)) shape ddt data grp0) as [grp err]; cbn [fst] in *.
+  cbn [f_trace f_nd with_trace]. split; [exact L1|]. split; [reflexivity|].
+  intros Hok. now rewrite (L2 Hok), HR0.
 Qed.
 
 Lemma NdInv_step s o : NdInv (st_f s) -> NdInv (st_f (fst (step s o))).
@@ -571,7 +586,7 @@ Proof.
     + apply ChunksPos_write. destruct (w_mode (st_w s) =? 1); [now apply ChunksPos_adel|exact H1].
     + destruct (w_mode (st_w s) =? 1); [now apply ChunksPos_adel|exact H1].
   - cbn [step fst st_f set_file].
-    destruct (store_trace_spec s shape itemsize data 0 (conj H1 H2)) as (A & B & _).
+    destruct (store_trace_spec s shape ddt data 0 (conj H1 H2)) as (A & B & _).
     split; [rewrite B; exact H1|exact A].
   - split; [|rewrite Ht; exact H2].
     cbn [step fst st_f set_file]. unfold store_image.
@@ -589,15 +604,17 @@ Proof.
   - replace (b * 255 =? 0) with false by lia. reflexivity.
 Qed.
 
-Lemma image_step s f g isbool shape isz data :
-  NdInv (st_f s) ->
-  rd_nd (st_f (fst (step s (OImage g isbool shape isz data)))) f
+Lemma image_step s f g isbool shape ddt data :
+  NdInv (st_f s) -> image_ok s g isbool ddt data = true ->
+  rd_nd (st_f (fst (step s (OImage g isbool shape ddt data)))) f
   = if g =? f then upd (w_mode (st_w s)) (rd_nd (st_f s) f)
                        (if f =? F_MASK then as_bool data else data)
     else rd_nd (st_f s) f.
 Proof.
-  intros [HN _]. cbn [step fst st_f set_file]. unfold store_image, upd, rd_nd.
-  set (ndl := if w_mode (st_w s) =? 1 then adel g (f_nd (st_f s)) else f_nd (st_f s)).
+  intros [HN _] Hok. cbn [step fst st_f set_file]. unfold store_image, upd, rd_nd.
+  unfold image_ok in Hok.
+  set (ndl := if w_mode (st_w s) =? 1 then adel g (f_nd (st_f s)) else f_nd (st_f s)) in *.
+  rewrite (rows_fit_cast _ _ Hok). unfold image_data.
   assert (HP : ChunksPos ndl).
   { subst ndl. destruct (w_mode (st_w s) =? 1); [now apply ChunksPos_adel|exact HN]. }
   assert (Hl : forall h, alookup h ndl
@@ -628,32 +645,34 @@ Proof.
     + now rewrite andb_false_r.
 Qed.
 
-Theorem nd_history f : forall ops s, NdInv (st_f s) ->
+Theorem nd_history f : forall ops s, NdInv (st_f s) -> hist_ok s ops = true ->
   rd_nd (st_f (run s ops)) f = spec_nd f (w_mode (st_w s)) (rd_nd (st_f s) f) ops.
 Proof.
-  induction ops as [|o r IH]; intros s HI; [reflexivity|].
-  rewrite run_cons, IH by (now apply NdInv_step). rewrite mode_step.
+  induction ops as [|o r IH]; intros s HI Hok; [reflexivity|].
+  cbn [hist_ok] in Hok. apply andb_prop in Hok as [Ho Hr].
+  rewrite run_cons, IH by first [now apply NdInv_step | exact Hr]. rewrite mode_step.
   pose proof (nd_frame s o) as Hfr.
   destruct o; cbn [spec_nd]; try (unfold rd_nd; rewrite Hfr; reflexivity).
   - cbn [step fst st_f]. destruct (mode =? 2); reflexivity.
-  - rewrite (image_step s f f0 isbool shape itemsize data HI). destruct (f0 =? f); reflexivity.
-  - change (step s (OArr f0 isbool shape dshape itemsize flat))
-      with (step s (OImage f0 isbool (arr_shape f0 shape dshape) itemsize
+  - rewrite (image_step s f f0 isbool shape ddt data HI Ho). destruct (f0 =? f); reflexivity.
+  - change (step s (OArr f0 isbool shape dshape ddt flat))
+      with (step s (OImage f0 isbool (arr_shape f0 shape dshape) ddt
                            (arr_events f0 shape dshape flat))).
-    rewrite (image_step s f f0 isbool _ itemsize _ HI). destruct (f0 =? f); reflexivity.
+    rewrite (image_step s f f0 isbool _ ddt _ HI Ho). destruct (f0 =? f); reflexivity.
 Qed.
 
-Theorem trace_history tr : forall ops s, NdInv (st_f s) ->
+Theorem trace_history tr : forall ops s, NdInv (st_f s) -> hist_ok s ops = true ->
   rd_trace (st_f (run s ops)) tr = spec_trace tr (w_mode (st_w s)) (rd_trace (st_f s) tr) ops.
 Proof.
-  induction ops as [|o r IH]; intros s HI; [reflexivity|].
-  rewrite run_cons, IH by (now apply NdInv_step). rewrite mode_step.
+  induction ops as [|o r IH]; intros s HI Hok; [reflexivity|].
+  cbn [hist_ok] in Hok. apply andb_prop in Hok as [Ho Hr].
+  rewrite run_cons, IH by first [now apply NdInv_step | exact Hr]. rewrite mode_step.
   pose proof (trace_frame s o) as Hfr.
   change rd_trace with (fun s tr => grp_rows (f_trace s) tr) in *. cbv beta.
   destruct o; cbn [spec_trace]; try (rewrite Hfr; reflexivity).
   - cbn [step fst st_f]. destruct (mode =? 2); reflexivity.
   - cbn [step fst st_f set_file].
-    destruct (store_trace_spec s shape itemsize data tr HI) as (_ & _ & C). now rewrite C.
+    destruct (store_trace_spec s shape ddt data tr HI) as (_ & _ & C). now rewrite (C Ho).
 Qed.
 
 (* ---- contours (ragged data, group size cache) ---------------------------------------------- *)
@@ -881,22 +900,76 @@ Proof.
 Qed.
 
 (* ---- the event count written on exit ------------------------------------------------------------ *)
-(* balanced file: every stored feature has n events *)
+(* balanced file: every stored feature has n events (for the trace group:
+   every trace; the writer only accepts the NTRACE known trace names) *)
 Definition Balanced (s : file) (n : Z) : Prop :=
-  forall f len, feat_len s f = Some len -> len = n.
+  (forall f len, f <> F_TRACE -> feat_len s f = Some len -> len = n)
+  /\ (forall g, f_trace s = Some g ->
+        (g = [] -> n = 0)       (* an empty trace group is a feature without events *)
+        /\ forall t d, In (t, d) g -> 0 <= t < Z.of_nat NTRACE /\ zlen (nd_rows d) = n).
+
+Lemma alookup_In {A} k (l : list (Z * A)) v : alookup k l = Some v -> In (k, v) l.
+Proof.
+  induction l as [|[k' v'] l IH]; simpl; [discriminate|].
+  destruct (k =? k') eqn:E; [|auto]. intros [= ->]. left. f_equal. lia.
+Qed.
+
+Lemma first_trace_In g d : first_trace g = Some d -> exists t, In (t, d) g.
+Proof.
+  unfold first_trace.
+  destruct (flat_map _ (zrange NTRACE)) as [|d0 r] eqn:E; [discriminate|].
+  intros [= <-].
+  assert (Hin : In d0 (flat_map (fun t => match alookup t g with Some d => [d] | None => [] end)
+                                (zrange NTRACE))) by (rewrite E; now left).
+  apply in_flat_map in Hin as (t & _ & Ht).
+  destruct (alookup t g) as [d1|] eqn:El; [|contradiction].
+  destruct Ht as [->|[]]. exists t. now apply alookup_In.
+Qed.
+
+Lemma first_trace_some g :
+  g <> [] -> (forall t d, In (t, d) g -> 0 <= t < Z.of_nat NTRACE) ->
+  exists d, first_trace g = Some d.
+Proof.
+  intros Hne Hr. destruct g as [|[t d] g]; [congruence|].
+  unfold first_trace.
+  destruct (flat_map _ (zrange NTRACE)) as [|d0 r] eqn:E; [|eauto].
+  exfalso.
+  assert (Hin : In d (flat_map (fun t0 => match alookup t0 ((t, d) :: g) with
+                                          | Some d1 => [d1] | None => [] end) (zrange NTRACE))).
+  { apply in_flat_map. exists t. split.
+    - specialize (Hr t d (or_introl eq_refl)). unfold zrange. apply in_map_iff.
+      exists (Z.to_nat t). split; [lia|]. apply in_seq. lia.
+    - simpl. rewrite Z.eqb_refl. now left. }
+  rewrite E in Hin. exact Hin.
+Qed.
 
 Theorem event_count_matches s n :
   Balanced s n -> feats_sorted s <> [] ->
   rd_attr (rectify_metadata s) M_EVENT_COUNT = Some n.
 Proof.
-  intros HB Hne. unfold rectify_metadata.
+  intros [HB HT] Hne. unfold rectify_metadata.
   destruct (feats_sorted s) as [|[f0 n0] r] eqn:E; [congruence|].
-  assert (Hn0 : n0 = n).
+  assert (Hf0 : feat_len s f0 = Some n0).
   { assert (Hin : In (f0, n0) (feats_sorted s)) by (rewrite E; now left).
     unfold feats_sorted in Hin. apply in_flat_map in Hin as (f & _ & Hf).
     destruct (feat_len s f) as [len|] eqn:El; [|contradiction].
-    destruct Hf as [[= <- <-]|[]]. eapply HB; eauto. }
-  subst n0. unfold rd_attr. cbn [f_attrs with_attrs].
+    destruct Hf as [[= <- <-]|[]]. exact El. }
+  assert (Hec : event_count_of s f0 n0 = n).
+  { unfold event_count_of. destruct (f0 =? F_TRACE) eqn:Et; cbn [andb].
+    - assert (f0 = F_TRACE) by lia. subst f0.
+      unfold feat_len in Hf0. cbn in Hf0.
+      destruct (f_trace s) as [g|] eqn:Eg; [|discriminate]. cbn in Hf0.
+      injection Hf0 as <-. destruct (zlen g =? 0) eqn:Ez; cbn [negb].
+      + (* an empty trace group counts 0 events *)
+        destruct g; [|unfold zlen in Ez; simpl in Ez; lia].
+        symmetry. now apply (proj1 (HT [] eq_refl)).
+      + destruct (first_trace_some g) as [d Hd].
+        * intros ->. unfold zlen in Ez. simpl in Ez. lia.
+        * intros t d Hin. apply (proj2 (HT g eq_refl) t d Hin).
+        * rewrite Hd. destruct (first_trace_In g d Hd) as [t Hin].
+          apply (proj2 (HT g eq_refl) t d Hin).
+    - apply (HB f0 n0); [lia|exact Hf0]. }
+  rewrite Hec. unfold rd_attr. cbn [f_attrs with_attrs].
   set (a1 := aset M_EVENT_COUNT n (f_attrs s)).
   assert (H1 : alookup M_EVENT_COUNT a1 = Some n) by (subst a1; now rewrite alookup_aset).
   repeat match goal with
@@ -904,6 +977,20 @@ Proof.
          | |- context [match ?x with Some _ => _ | None => _ end] => destruct x
          end;
     rewrite ?alookup_aset; cbn; exact H1.
+Qed.
+
+Lemma run_app ops1 : forall s ops2, run s (ops1 ++ ops2) = run (run s ops1) ops2.
+Proof. induction ops1 as [|o r IH]; intros s ops2; [reflexivity|]. simpl. apply IH. Qed.
+
+(* for every history that leaves a balanced file with n events per feature,
+   closing the writer stores the event count n *)
+Theorem event_count_history ops n :
+  Balanced (st_f (run init ops)) n -> feats_sorted (st_f (run init ops)) <> [] ->
+  rd_attr (st_f (run init (ops ++ [OClose]))) M_EVENT_COUNT = Some n.
+Proof.
+  intros HB Hne. rewrite run_app. cbn [run step fst st_f].
+  destruct (feats_sorted (st_f (run init ops))) eqn:E; [congruence|].
+  apply event_count_matches; [exact HB|]. rewrite E. discriminate.
 Qed.
 
 (* ---- refutations: what the code does not keep (known findings) ------------------------------------ *)
@@ -928,13 +1015,13 @@ Qed.
 Definition demo_ops : list op :=
   [OConfig 512; OOpen 2; OMeta [(1, 9); (2, 6)];
    OScalar 4 false [(0, 4); (1, 0)]; OScalar 12 true [(0, 56); (0, 56)];
-   OImage 13 true [1; 2] 1 (gen_rows 1 3 0 2 2); OContour [[1; 2; 3; 4]; [5; 6]];
-   OTrace [3] 2 [(1, gen_rows 2 5 0 2 3)]; OLog 0 [[104; 105]]; OTable 0 [0] [[8]];
-   OImage 10 false [1; 2] 1 (gen_rows 0 7 0 12 2);
+   OImage 13 true [1; 2] (ndt_of 1) (gen_rows 1 3 0 2 2); OContour [[1; 2; 3; 4]; [5; 6]];
+   OTrace [3] (ndt_of 2) [(1, gen_rows 2 5 0 2 3)]; OLog 0 [[104; 105]]; OTable 0 [0] [[8]];
+   OImage 10 false [1; 2] (ndt_of 1) (gen_rows 0 7 0 12 2);
    OScalar 4 false [(2, 0)]; OScalar 12 true [(0, 0)];
-   OImage 13 true [1; 2] 1 (gen_rows 1 3 2 3 2); OContour [[7; 8]];
-   OImage 10 false [1; 2] 1 (gen_rows 0 7 12 25 2);
-   OTrace [3] 2 [(1, gen_rows 2 5 2 3 3)]; OLog 0 [repeat 65 100]; OClose;
+   OImage 13 true [1; 2] (ndt_of 1) (gen_rows 1 3 2 3 2); OContour [[7; 8]];
+   OImage 10 false [1; 2] (ndt_of 1) (gen_rows 0 7 12 25 2);
+   OTrace [3] (ndt_of 2) [(1, gen_rows 2 5 2 3 3)]; OLog 0 [repeat 65 100]; OClose;
    OOpen 1; OScalar 4 false [(0, 8); (0, 16); (0, 24)]; OLog 0 [repeat 66 130]; OClose].
 
 Example c01_nonvacuous :
@@ -952,29 +1039,51 @@ Proof. vm_compute. repeat split. Qed.
 
 Example c01_balanced_nonvacuous :
   let s := st_f (run init [OOpen 2; OScalar 4 false [(0, 4); (1, 0)];
-                           OImage 10 false [1; 2] 1 (gen_rows 0 7 0 2 2);
-                           OContour [[1; 2]; [3; 4]]]) in
+                           OImage 10 false [1; 2] (ndt_of 1) (gen_rows 0 7 0 2 2);
+                           OContour [[1; 2]; [3; 4]];
+                           OTrace [3] (ndt_of 2) [(1, gen_rows 2 5 0 2 3); (0, gen_rows 2 6 0 2 3)]]) in
   Balanced s 2 /\ feats_sorted s <> [].
 Proof.
-  split; [|vm_compute; discriminate].
-  intros f len. unfold feat_len. vm_compute f_contour. vm_compute f_trace. vm_compute f_scal.
-  vm_compute f_nd. unfold F_CONTOUR, F_TRACE.
-  destruct (f =? 3); [intros [= <-]; reflexivity|].
-  destruct (f =? 19); [discriminate|]. cbn [alookup].
-  destruct (f =? 4); [intros [= <-]; reflexivity|].
-  destruct (f =? 10); [intros [= <-]; reflexivity|discriminate].
+  split; [|vm_compute; discriminate]. split.
+  - intros f len Hf. unfold feat_len. vm_compute f_contour. vm_compute f_scal.
+    vm_compute f_nd. unfold F_CONTOUR, F_TRACE in *.
+    destruct (f =? 3); [intros [= <-]; reflexivity|].
+    destruct (f =? 19) eqn:E; [lia|]. cbn [alookup].
+    destruct (f =? 4); [intros [= <-]; reflexivity|].
+    destruct (f =? 10); [intros [= <-]; reflexivity|discriminate].
+  - vm_compute f_trace. intros g [= <-]. split; [discriminate|].
+    intros t d [H|[H|[]]]; injection H as <- <-; (split; [unfold NTRACE; simpl; lia|reflexivity]).
 Qed.
 
 (* ---- statements from the empty file ------------------------------------------------------------------ *)
 Lemma NdInv_init : NdInv (st_f init).
 Proof. split; [intros k d; discriminate|exact I]. Qed.
 
-Corollary nd_history_init f ops : rd_nd (st_f (run init ops)) f = spec_nd f 0 [] ops.
+Corollary nd_history_init f ops : hist_ok init ops = true ->
+  rd_nd (st_f (run init ops)) f = spec_nd f 0 [] ops.
 Proof. exact (nd_history f ops init NdInv_init). Qed.
 
-Corollary trace_history_init tr ops :
+Corollary trace_history_init tr ops : hist_ok init ops = true ->
   rd_trace (st_f (run init ops)) tr = spec_trace tr 0 [] ops.
 Proof. exact (trace_history tr ops init NdInv_init). Qed.
+
+(* C01-nd-dtype-frozen: the dtype of a trace (or user-shaped) dataset is that
+   of the first array: int16 traces, then an int32 array with 40000 and -70000 *)
+Theorem trace_history_refuted :
+  exists ops tr, rd_trace (st_f (run init ops)) tr <> spec_trace tr 0 [] ops.
+Proof.
+  exists [OOpen 2; OTrace [2] (ndt_of 2) [(1, [[5; 6]])];
+          OTrace [2] (ndt_of 3) [(1, [[40000; -70000]])]], 1.
+  vm_compute. congruence.
+Qed.
+
+Theorem nd_history_refuted :
+  exists ops f, rd_nd (st_f (run init ops)) f <> spec_nd f 0 [] ops.
+Proof.
+  exists [OOpen 2; OArr 22 false [2] [1; 2] (ndt_of 6) [8; 16];
+          OArr 22 false [2] [1; 2] (ndt_of 0) [4; 21]], 22.
+  vm_compute. congruence.
+Qed.
 
 Corollary index_history_init ops : index_ok 0 0 ops = true ->
   rd_scalar (st_f (run init ops)) F_INDEX = enumerate_from_1 (spec_index_len 0 0 ops).
@@ -997,7 +1106,79 @@ Example c01_arr_nonvacuous :
   /\ arr_events F_QPI_AMP [] [2; 3] [1; 2; 3; 4; 5; 6] = [[1; 2; 3; 4; 5; 6]]
   /\ arr_events F_IMAGE [] [2; 1; 3] [1; 2; 3; 4; 5; 6] = [[1; 2; 3]; [4; 5; 6]]
   /\ arr_events 22 [2; 3] [3; 2] [1; 2; 3; 4; 5; 6] = []
-  /\ rd_nd (st_f (run init [OOpen 2; OArr 22 false [2; 3] [2; 3] 8 [1; 2; 3; 4; 5; 6];
-                            OArr 22 false [2; 3] [1; 2; 3] 8 [7; 8; 9; 10; 11; 12]])) 22
+  /\ rd_nd (st_f (run init [OOpen 2; OArr 22 false [2; 3] [2; 3] (ndt_of 0) [1; 2; 3; 4; 5; 6];
+                            OArr 22 false [2; 3] [1; 2; 3] (ndt_of 0) [7; 8; 9; 10; 11; 12]])) 22
      = [[1; 2; 3; 4; 5; 6]; [7; 8; 9; 10; 11; 12]].
 Proof. vm_compute. repeat split. Qed.
+
+(* ---- metadata written by the caller -------------------------------------------------------------------- *)
+(* keys that rectify_metadata never touches keep the last value given to
+   store_metadata since the last reset (the conversion of a value to its
+   documented type is C11's subject; here values are already normalised) *)
+Definition auto_key (k : Z) : bool :=
+  (k =? M_EVENT_COUNT) || (k =? M_ROI_X) || (k =? M_ROI_Y) || (k =? M_SAMPLES) || (k =? M_CHANNELS).
+
+Fixpoint spec_meta (k : Z) (acc : option Z) (ops : list op) : option Z :=
+  match ops with
+  | [] => acc
+  | OOpen m :: r => spec_meta k (if m =? 2 then None else acc) r
+  | OMeta kvs :: r =>
+      spec_meta k (fold_left (fun (a : option Z) (kv : Z * Z) => if fst kv =? k then Some (snd kv) else a) kvs acc) r
+  | _ :: r => spec_meta k acc r
+  end.
+
+Lemma store_meta_lookup k kvs : forall a,
+  alookup k (fold_left (fun a kv => aset (fst kv) (snd kv) a) kvs a)
+  = fold_left (fun (o : option Z) (kv : Z * Z) => if fst kv =? k then Some (snd kv) else o) kvs (alookup k a).
+Proof.
+  induction kvs as [|[k' v] r IH]; intros a; cbn [fold_left fst snd]; [reflexivity|].
+  rewrite IH, alookup_aset, (Z.eqb_sym k k'). reflexivity.
+Qed.
+
+Lemma rectify_attr_frame s k : auto_key k = false ->
+  alookup k (f_attrs (rectify_metadata s)) = alookup k (f_attrs s).
+Proof.
+  unfold auto_key. intros Hk. unfold rectify_metadata.
+  destruct (feats_sorted s) as [|[f0 n0] r]; [reflexivity|].
+  cbn [f_attrs with_attrs].
+  repeat match goal with
+         | |- context [if ?b then _ else _] => destruct b
+         | |- context [match ?x with Some _ => _ | None => _ end] => destruct x
+         end;
+    rewrite ?alookup_aset;
+    repeat match goal with
+           | |- context [k =? ?c] => replace (k =? c) with false by lia
+           end; reflexivity.
+Qed.
+
+Lemma attrs_frame s o :
+  match o with OOpen _ | OClose | OMeta _ => True
+          | _ => f_attrs (st_f (fst (step s o))) = f_attrs (st_f s) end.
+Proof.
+  destruct o; try exact I; cbn [step fst st_f set_file]; try reflexivity.
+  - unfold store_scalar.
+    destruct (f =? F_INDEX); [destruct (zlen data =? 0)|destruct (nonempty data)]; reflexivity.
+  - unfold store_image. destruct (nonempty data); reflexivity.
+  - unfold store_contour.
+    destruct (f_contour (st_f s)); [destruct (w_mode (st_w s) =? 1)|]; reflexivity.
+  - unfold store_trace. destruct (trace_loop _ _ _ _ _); reflexivity.
+  - unfold store_table. destruct (amem name (f_tables (st_f s))); reflexivity.
+  - unfold store_image. destruct (nonempty _); reflexivity.
+Qed.
+
+Theorem meta_history k : auto_key k = false -> forall ops s,
+  rd_attr (st_f (run s ops)) k = spec_meta k (rd_attr (st_f s) k) ops.
+Proof.
+  intros Hk. induction ops as [|o r IH]; intros s; [reflexivity|].
+  rewrite run_cons, IH. pose proof (attrs_frame s o) as Hfr. unfold rd_attr in *.
+  destruct o; cbn [spec_meta]; try (rewrite Hfr; reflexivity).
+  - cbn [step fst st_f]. destruct (mode =? 2); reflexivity.
+  - cbn [step fst st_f]. destruct (feats_sorted (st_f s)); [reflexivity|].
+    now rewrite rectify_attr_frame.
+  - cbn [step fst st_f]. unfold store_meta. cbn [f_attrs with_attrs].
+    now rewrite store_meta_lookup.
+Qed.
+
+Corollary meta_history_init k ops : auto_key k = false ->
+  rd_attr (st_f (run init ops)) k = spec_meta k None ops.
+Proof. intros Hk. exact (meta_history k Hk ops init). Qed.
